@@ -381,8 +381,26 @@ def timings(seed, n_random=2, n_pct=1):
     return out
 
 
-def run_design(c: checklib.Check):
-    """The design model: FsKernel's paced operation graph (what the histories are drawn from)."""
-    for start in ("small", "deep", "empty"):
-        hs, r = tlc_histories(start, 3 if c.thorough else 2)
-        c.add_tlc(f"FsGen:{start}", r)
+def run_design(c: checklib.Check, histories=True):
+    """The design models: InotifyPipeline.tla (FsKernel x reader x replica, exhaustive over histories, read splits and
+    placements of reader steps) with its negative / deviation configurations, and the paced operation graph FsGen."""
+    pos = ["InotifyPipeline_quick.cfg", "InotifyPipeline_quick_empty.cfg"]
+    if c.thorough:
+        pos += ["InotifyPipeline_thorough.cfg", "InotifyPipeline_thorough_deep.cfg"]
+    for cfg in pos:
+        r = tlc.run_tlc("InotifyPipeline", cfg, workers=c.jobs, timeout=3000, heap="8g")
+        c.add_tlc("InotifyPipeline:" + cfg, r)
+        if not r.ok:
+            c.machinery_failure(f"design spec {cfg} violated: {r.violated} {r.errors[:2]}")
+        c.note(f"TLC {cfg}: {r.distinct} distinct states, depth {r.depth}, {r.wall:.1f}s")
+    for cfg, inv in (("InotifyPipeline_neg_D6.cfg", "C02_WatchedEqualsDirs"), ("InotifyPipeline_dev_D7.cfg", "C02_NoStaleWatches"),
+                     ("InotifyPipeline_dev_D7_replica.cfg", "C01_ReplicaMatches")):
+        r = tlc.run_tlc("InotifyPipeline", cfg, workers=c.jobs, timeout=3000, heap="8g")
+        if inv not in r.violated:
+            c.machinery_failure(f"vacuity: {cfg} did not violate {inv}: {r.summary()}")
+    c.note("InotifyPipeline negative (D6 switched back on) and deviation (D7, known finding) configurations violate their "
+           "invariants as expected")
+    if histories:
+        for start in ("small", "deep", "empty"):
+            hs, r = tlc_histories(start, 3 if c.thorough else 2)
+            c.add_tlc(f"FsGen:{start}", r)
